@@ -17,16 +17,19 @@ ASSUMPTIONS = ['render-time options (escape flags, max_line_length, normalize_wh
 ROLE_STRINGS = ['{', '}', '{0}', '{}', '%s', '%', '{inner}', '{target}', '\\', '$', '"', "'", '<', '&', ']', ')', '`', '|']
 PUNCT_DIGIT = set(string.punctuation + string.digits)
 
+# configurations for the 'list of lines without line ends' form: the two token sets (with and without HtmlBlock)
+NONL_GROUPS = [configs.GROUPS_CORE[0], configs.GROUPS_CORE[4]]
+
 TIERS = {
-    'quick': dict(words=dict(emph=8, block=4, link=4, html=4, misc=4, code=5, uni=4, wiki=4), lines=3,
+    'quick': dict(words=dict(emph=8, block=4, link=4, html=4, misc=4, code=5, uni=4, wiki=4, ent=4), lines=3,
                   edit=('small', 60), pump=(1, 300), forms_lines=2, deep='core'),
-    'thorough': dict(words=dict(emph=10, block=6, link=6, html=6, misc=5, code=7, uni=5, wiki=6), lines=4,
+    'thorough': dict(words=dict(emph=10, block=6, link=6, html=6, misc=5, code=7, uni=5, wiki=6, ent=5), lines=4,
                      edit=('large', 400), pump=(2, 1000), forms_lines=3, deep='core'),
 }
 # words up to this length are run under the full 26-configuration set, longer ones under GROUPS_CORE (9 configurations:
 # every renderer class with its own parse path or render overrides)
-FULL_DEPTH = {'quick': dict(emph=6, block=3, link=3, html=3, misc=3, code=4, uni=3, wiki=3),
-              'thorough': dict(emph=8, block=4, link=4, html=4, misc=4, code=5, uni=4, wiki=4)}
+FULL_DEPTH = {'quick': dict(emph=6, block=3, link=3, html=3, misc=3, code=4, uni=3, wiki=3, ent=4),
+              'thorough': dict(emph=8, block=4, link=4, html=4, misc=4, code=5, uni=4, wiki=4, ent=4)}
 
 
 def describe(tier):
@@ -90,6 +93,12 @@ def supply(text, form):
         if parts and parts[-1] == '':
             parts.pop()
         return [p + '\n' for p in parts]
+    if form == 'list-nonl':
+        # a list of lines WITHOUT line ends (text.split('\n')), which Document accepts and completes
+        parts = text.split('\n')
+        if parts and parts[-1] == '':
+            parts.pop()
+        return parts
     if form == 'file':
         return io.StringIO(text)
     raise KeyError(form)
@@ -181,6 +190,8 @@ def _run_job(r, job):
         for w in core.words_of_job(alpha, prefix, k):
             text = ''.join(w)
             run_text(r, text, configs.GROUPS if len(w) <= full else configs.GROUPS_CORE, space=name)
+            if '\n' in text[:-1]:
+                run_text(r, text, NONL_GROUPS, form='list-nonl', space=name)
         r.sample(dict(space=name, text=''.join(alpha[i] for i in (prefix or ())) + alpha[-1]), 1)
     elif kind == 'lines':
         _, first, k, forms_k = job
@@ -199,6 +210,8 @@ def _run_job(r, job):
                     if n <= forms_k:
                         for form in ('list', 'file'):
                             run_text(r, text, configs.GROUPS_CORE[:3], form=form, space='lines')
+                    if n > 1:
+                        run_text(r, text, NONL_GROUPS if n > 2 else configs.GROUPS_CORE[:3], form='list-nonl', space='lines')
         r.sample(dict(space='lines', text=spaces.lines_text((L[first], L[1]))), 1)
     elif kind == 'edit':
         _, lo, hi, tokname, maxlen = job
